@@ -131,8 +131,24 @@ def run(chk, repo):
         ok = len(lb) == 3 and isinstance(lb[0], ast.With) and unparse(lb[0].items[0].context_expr) == "self.lock" \
             and "thread = self._threads[0]" in w0 and ends \
             and unparse(lb[1]) == "if not self.wait:\n    thread.stop()" and unparse(lb[2]) == "thread.join()"
+    if ok:
+        t_ = loops[0].test
+        ok = isinstance(t_, ast.Constant) and bool(t_.value) is True or unparse(t_) in ("self._threads", "len(self._threads) > 0")
     chk.decide(ok, "C17.close", W("AudioIO.close"), "for every listed thread: stop unless wait, then join",
-               why="every player must be stopped (when not waiting) and joined before the backend is terminated", node=close)
+               why="every player must be stopped (when not waiting) and joined before the backend is terminated: the "
+                   "loop goes on until the list is empty", node=close)
+    for dn in ("__exit__", "__del__"):
+        dm = M.methods.get(dn)
+        if dm is not None:
+            calls_ = [st for st in docstring_free(dm.body) if isinstance(st, ast.Expr) and unparse(st.value) == "self.close()"]
+            chk.decide(len(calls_) == 1 and len(docstring_free(dm.body)) == 1, "C17.close", W("AudioIO." + dn), "%s -> self.close()" % dn,
+                       why="leaving the with-block (or dropping the manager) must close it", node=dm)
+    asserts = [n for n in ast.walk(close) if isinstance(n, ast.Assert)]
+    for a_ in asserts:
+        from ..dtable import Facts, holds
+        r_ = holds(a_.test, Facts(lens={"self._pa._streams": 0}))
+        chk.decide(r_ is True or r_ is None, "C17.close", W("AudioIO.close"), short(a_),
+                   why="with every device stream closed the assertion must hold, or close() raises instead of terminating", node=a_)
     if loops:
         tpos = terms[0].lineno
         chk.decide(loops[0].end_lineno < tpos, "C17.close", W("AudioIO.close"), "threads are joined before terminate()",
@@ -189,6 +205,8 @@ def run(chk, repo):
     # (b) reach break
     go_set = {"set": True, "clear": False}.get(go_after)     # None = unknown (either)
 
+    halting_now = [True]
+
     def walk(stmts, blocked_ok):
         """returns set of outcomes over paths: 'break', 'fall' (end of body), 'blocked'"""
         outs = set()
@@ -201,9 +219,9 @@ def run(chk, repo):
             t = unparse(st.test)
             val = None
             if t == "self.halting":
-                val = True
+                val = halting_now[0]
             elif t == "not self.halting":
-                val = False
+                val = not halting_now[0]
             elif t == "not self.go.is_set()":
                 val = None if go_set is None else (not go_set)
             elif t == "self.go.is_set()":
@@ -244,6 +262,22 @@ def run(chk, repo):
                    why="after stop() a later pause()/play() changes `go` again: with the flag raised the loop must still "
                        "break; here a stopped-then-paused player blocks in go.wait() (close() with wait=True never "
                        "returns) or keeps playing", node=lp)
+        # without stop() nothing may end the loop early: every chunk of the audio is written
+        halting_now[0] = False
+        saved = go_set
+        quiet = {}
+        for state in (True, False):
+            go_set = state
+            quiet[state] = walk(list(lp.body[1:]), False)
+            for w in waits:
+                go_set = True               # play() released the wait
+                quiet[("resumed", state)] = walk(_after(w, lp), False)
+        go_set = saved
+        halting_now[0] = True
+        chk.decide(all("break" not in o for o in quiet.values()), "C17.deliver", W("AudioThread.run"),
+                   "without stop() no path leaves the chunk loop early (playing -> %s, paused -> %s, resumed -> %s)"
+                   % (sorted(quiet[True]), sorted(quiet[False]), sorted(quiet.get(("resumed", False), []))),
+                   why="a player that was never stopped breaks out of its loop: the rest of the audio is lost", node=lp)
         for w in waits:
             # statements after the wait within its block, then the rest of the enclosing blocks
             tail = _after(w, lp)
